@@ -166,22 +166,37 @@ func c18ModelBytes(f wire.Pkt) string {
 	return lib.Hex(append([]byte{f.Typ}, f.Body...))
 }
 
-// c18Trace writes the run down in the actions of the Lean allocator model: every frame arrives first (pipelined run
-// with every call held) or one by one (serial run); handlers return in the order of run.Handled; a reply is sent
-// and its pages released as soon as it is at the head of the line.
-func c18Trace(run *gRun, frames [][]byte) []string {
+// c18Trace writes the run down in the actions of the Lean allocator model. A READ that reaches getDataSlice takes
+// its data page when its handler starts (T), stores the file data when ReadAt returns (W) and answers with a DATA
+// packet referring to the page (D), or with an error that owns its bytes (O). Serial run: one request at a time.
+// Pipelined run with every call held (at most 8 requests): every frame has arrived and every READ has taken its page
+// before the first handler returns; handlers return in the order of run.Handled; a reply is sent and its pages
+// released as soon as it is at the head of the line.
+func c18Trace(run *gRun, frames [][]byte, maxTx uint32) []string {
 	n := len(frames)
 	var t []string
-	handler := func(i int) string {
-		f := run.Frames[i]
-		if f.Typ == wire.Data && run.Case.Prog.Ops[i].K == "read" {
-			return fmt.Sprintf("R:%d:%s", i, c18ModelBytes(f))
+	takes := func(i int) bool {
+		return run.Case.Prog.Ops[i].K == "read" && strings.HasPrefix(run.Routes[i].Sim.Gate, "rw:") && !run.Routes[i].Mismatch
+	}
+	start := func(i int) []string {
+		if !takes(i) {
+			return nil
 		}
-		return fmt.Sprintf("O:%d:%s", i, c18ModelBytes(f))
+		return []string{fmt.Sprintf("T:%d:%d", i, min(run.Case.Prog.Ops[i].Len, maxTx))}
+	}
+	finish := func(i int) []string {
+		f := run.Frames[i]
+		if takes(i) && f.Typ == wire.Data && len(f.Body) >= 8 {
+			return []string{fmt.Sprintf("W:%d:%s", i, lib.Hex(f.Body[8:])), fmt.Sprintf("D:%d:%d", i, len(f.Body)-8)}
+		}
+		return []string{fmt.Sprintf("O:%d:%s", i, c18ModelBytes(f))}
 	}
 	if run.Case.Mode == "serial" {
 		for i := 0; i < n; i++ {
-			t = append(t, "L", "A:"+lib.Hex(frames[i][4:]), handler(i), fmt.Sprintf("S:%d", i), fmt.Sprintf("X:%d", i))
+			t = append(t, "L", "A:"+lib.Hex(frames[i][4:]))
+			t = append(t, start(i)...)
+			t = append(t, finish(i)...)
+			t = append(t, fmt.Sprintf("S:%d", i), fmt.Sprintf("X:%d", i))
 		}
 		return append(t, "L")
 	}
@@ -189,10 +204,13 @@ func c18Trace(run *gRun, frames [][]byte) []string {
 		t = append(t, "L", "A:"+lib.Hex(frames[i][4:]))
 	}
 	t = append(t, "L")
+	for i := 0; i < n; i++ {
+		t = append(t, start(i)...)
+	}
 	done := make([]bool, n)
 	next := 0
 	for _, i := range run.Handled {
-		t = append(t, handler(i))
+		t = append(t, finish(i)...)
 		done[i] = true
 		for next < n && done[next] {
 			t = append(t, fmt.Sprintf("S:%d", next), fmt.Sprintf("X:%d", next))
@@ -321,7 +339,7 @@ func c18Summarise(res c18Result, modelOK bool) gSummary {
 			}
 			for _, run := range []*gRun{off, on} {
 				cfg := fmt.Sprintf("1111%d:%d:%d", map[bool]int{false: 0, true: 1}[run.Case.Prog.Alloc], c18PageSize, mt)
-				tr := c18Trace(run, frames)
+				tr := c18Trace(run, frames, mt)
 				s.Lines = append(s.Lines, "c18.run "+cfg+" "+strings.Join(tr, " "))
 				s.Wants = append(s.Wants, c18Want{Wire: strings.Join(ws, ","), Used: 1, On: run.Case.Prog.Alloc})
 				s.Lines = append(s.Lines, "c18.run "+cfg+" "+strings.Join(tr, " ")+" F")
@@ -336,9 +354,9 @@ func checkC18(c *lib.Ctx) {
 	r := c.R
 	r.Rule = "request streams: (mixed) PRNG pipelines of depth 1…30 over all request kinds incl. failing ones; (read-lengths) READs of length 0, 1, 2, 32767…32769, 65535…65537, 100000, 262130…262132 (= page − 13 ± 1), 262143, 262144 and 300000 under max-tx-packet 32768 (default), 65536, 262131 and 262144, some crossing or past end of file; (writes) WRITEs up to the largest frame (262122 bytes); (held) 24…64 READs with one request held back while all others complete. Each stream is run serially (request after reply), pipelined un-gated, pipelined with PRNG handler durations, and pipelined with every instrumented call held and released in a chosen order (fifo, lifo, uniform, earliest-held-longest, hold-request-k) — each time against the server WITHOUT and WITH the allocator, same scratch tree and same forced order. A case = (server, stream, mode, order) = one pair of runs; non-trivial = at least one DATA reply or at least two requests in flight; distinct by (server, program, mode, order)"
 	thorough := c.Tier == "thorough"
-	modelOK := gProbeModel(c, "c18.run 11111 L")
+	modelOK := gProbeModel(c, "c18.run 11111 L A:01 T:0:1 W:0:aa D:0:1 S:0 X:0")
 	if !modelOK {
-		r.Skip("model comparison skipped: driver op `c18.run <cfg> <action>*` (lean/Sftp/Driver/C18.lean) is not served by the driver binary given with --model")
+		r.Skip("model comparison skipped: driver op `c18.run <cfg> <action>*` with the actions L A T W D O S X F (lean/Sftp/Driver/C18.lean) is not served by the driver binary given with --model")
 	}
 	describe := func(raw json.RawMessage) (string, any) {
 		var st c18Stream
@@ -360,7 +378,7 @@ func checkC18(c *lib.Ctx) {
 			top, err := os.MkdirTemp("", "vh-c18-")
 			if err == nil {
 				defer os.RemoveAll(top)
-				c18F10(c, top)
+				c18F10(c, top, modelOK)
 			}
 			return
 		}
@@ -448,13 +466,16 @@ func checkC18(c *lib.Ctx) {
 			}
 		}
 	}
+	if c.Replay != "" {
+		return
+	}
 	top, err := os.MkdirTemp("", "vh-c18-")
 	if err != nil {
 		r.Fail(lib.Failure{Kind: "tie", Key: "harness/tmpdir", What: err.Error()})
 		return
 	}
 	defer os.RemoveAll(top)
-	c18F10(c, top)
+	c18F10(c, top, modelOK)
 }
 
 // ---- F10: READ longer than a page with max-tx-packet above the page size (run in a child: the worker panics) ----
@@ -478,7 +499,7 @@ func c18F10Child(args []string) {
 	fmt.Println(string(b))
 }
 
-func c18F10(c *lib.Ctx, top string) {
+func c18F10(c *lib.Ctx, top string, modelOK bool) {
 	r := c.R
 	type obs struct {
 		Server, Allocator string
@@ -520,6 +541,22 @@ func c18F10(c *lib.Ctx, top string) {
 		}
 		offOK := seen[0].Exit == "0" && strings.Contains(seen[0].Stdout, "DATA id=9 len=300000")
 		onOK := seen[1].Exit == "0" && strings.Contains(seen[1].Stdout, "DATA id=9 len=300000")
+		if modelOK {
+			// the model has the same step: taking a page sliced to more than its size panics iff pages are recycled
+			var lines, impl []string
+			for k, ok := range []bool{offOK, onOK} {
+				lines = append(lines, fmt.Sprintf("c18.run 1111%d:%d:300000 L A:05 L T:0:300000", k, c18PageSize))
+				impl = append(impl, map[bool]string{true: "panic=0", false: "panic=1"}[ok])
+			}
+			if out, err := c.Model(lines); err == nil {
+				for i, o := range out {
+					if !strings.HasSuffix(o, impl[i]) {
+						r.Fail(lib.Failure{Kind: "correspondence", Key: "c18/c18.run/read-over-page", What: "model and implementation differ on whether a READ longer than a page panics",
+							Input: lines[i], Expected: o, Actual: impl[i] + " (" + server + ")"})
+					}
+				}
+			}
+		}
 		switch {
 		case offOK && onOK:
 		case offOK && !onOK:
